@@ -100,6 +100,31 @@ def argn_family(rng, n):
     return out
 
 
+KWONLY_PROBES = ["(lambda k: Select(seq, lambda x, *, k=1: x + k))(5)", "(lambda k: Select(seq, lambda x, /, k=1: x + k))(5)"]
+
+
+def kwonly_binder_probe(ctx, key):
+    """the known finding: a keyword-only / positional-only parameter of a lambda that stays in the query is not treated as a
+    binder - an outer argument of the same name is substituted for it (make_args_unique / visit_Lambda know args.args only)"""
+    import ast
+
+    def Select(s, f):
+        return [f(v) for v in s]
+
+    for text in KWONLY_PROBES:
+        want = eval(text, {"Select": Select, "seq": [1, 2, 3]})
+        ctx.count("kwonly-binder-probe:" + text, True, tags=["keyword-only / positional-only binder probe"])
+        try:
+            out = simplify.run_simplifier(ast.parse(text, mode="eval").body)
+            have = eval(compile(ast.fix_missing_locations(ast.Expression(out)), "<s>", "eval"), {"Select": Select, "seq": [1, 2, 3]})
+            shown = ast.unparse(out)
+        except Exception as e:
+            have, shown = f"raises {type(e).__name__}: {e}"[:160], ""
+        if have != want:
+            ctx.violate({"src": text, "out": shown, "python_original": repr(want), "python_simplified": repr(have)},
+                        "a parameter that is not among args.args (keyword-only / positional-only) is not treated as a binder", key=key)
+
+
 def reuse_family(rng, n):
     """a stage lambda that re-uses the still-live parameter name of the ENCLOSING (un-called) lambda, followed by a stage whose
     lambda mentions the enclosing parameter: fusing the two stages must not let the inner binder capture it"""
@@ -129,6 +154,7 @@ def reuse_family(rng, n):
 def run(ctx):
     comprehension_probe(ctx, "C02-comprehension-target-captured")
     simplify.check_queries(ctx, argn_family(ctx.rng, ctx.n(150, 4000)), "c02-argN")
+    kwonly_binder_probe(ctx, "C02-non-plain-parameter-not-a-binder")
     simplify.check_queries(ctx, reuse_family(ctx.rng, ctx.n(60, 1500)), "c02-reuse")
     n = ctx.n(1200, 60000)
     done = 0
